@@ -250,23 +250,18 @@ class FSA:
             # no-op if vertices are already in FSA
             self.add_vertices([tail, head])
 
-            if head not in self._out_dict[tail]:
-                self._out_dict[tail][head] = []
-                self._in_dict[head][tail] = []
+            labels = list(label) if elist else [label]
+            for l in labels:
+                if head not in self._out_dict[tail]:
+                    self._out_dict[tail][head] = []
+                    self._in_dict[head][tail] = []
 
-            if ignore_redundant and label in self._out_dict[tail][head]:
-                continue
+                if ignore_redundant and l in self._out_dict[tail][head]:
+                    continue
 
-            if elist:
-                self._out_dict[tail][head] += label
-                self._in_dict[head][tail] += label
-                for l in label:
-                    self._graph_dict[tail][l] = head
-
-            else:
-                self._out_dict[tail][head].append(label)
-                self._in_dict[head][tail].append(label)
-                self._graph_dict[tail][label] = head
+                self._out_dict[tail][head].append(l)
+                self._in_dict[head][tail].append(l)
+                self._graph_dict[tail][l] = head
 
     def delete_vertices(self, vertices):
         """Delete several vertices from the FSA.
